@@ -2,7 +2,7 @@
    argument tokens in, an outcome and result tokens out.  All calls into the
    models are made here, in Gallina; the hand-written OCaml only tokenises. *)
 From Coq Require Import String Ascii.
-From Dryoc Require Import Lib.Outcome Impl.Blake2b Impl.Kdf Impl.Argon2 Impl.Poly1305 Impl.Hashes Impl.SecretBox Impl.SecretStream Impl.Scalarmult Impl.PwhashStr Impl.Serde Impl.Rng Impl.Sign Impl.Protected Impl.TypeState.
+From Dryoc Require Import Lib.Outcome Impl.Blake2b Impl.Kdf Impl.Argon2 Impl.Cores Impl.Poly1305 Impl.Hashes Impl.SecretBox Impl.SecretStream Impl.Scalarmult Impl.PwhashStr Impl.Serde Impl.Rng Impl.Sign Impl.Protected Impl.TypeState.
 Open Scope Z_scope.
 
 Inductive tok :=
@@ -100,9 +100,9 @@ Definition dispatch (op : string) (args : list tok) : option (outcome (list tok)
   else if String.eqb op "shorthash.hash" then
     match args with [TB key; TB msg] => Some (Ok [TB (HashesImpl.shorthash key msg)]) | _ => None end
   else if String.eqb op "core.hsalsa20" then
-    match args with [TB key; TB input] => Some (Ok [TB (HashesImpl.hsalsa20 key input)]) | _ => None end
+    match args with [TB key; TB input] => Some (Ok [TB (CoresImpl.hsalsa20 key input)]) | _ => None end
   else if String.eqb op "core.hchacha20" then
-    match args with [TB key; TB input] => Some (Ok [TB (HashesImpl.hchacha20 key input)]) | _ => None end
+    match args with [TB key; TB input] => Some (Ok [TB (CoresImpl.hchacha20 key input)]) | _ => None end
   else if String.eqb op "utils.increment" then
     match args with [TB l] => Some (Ok [TB (HashesImpl.increment l)]) | _ => None end
   else if String.eqb op "secretbox.easy" then
